@@ -21,14 +21,18 @@ import (
 type Pt struct {
 	ID int
 	P  orb.Point
-	// OnPoint is called every time the tree asks for the point (a natural
-	// scheduling seam: user code the tree calls at every visited node).
-	OnPoint func()
 }
 
+// PointHook / FilterHook are natural scheduling seams: user code the tree
+// calls at every visited node. The simulator installs its Yield here.
+var (
+	PointHook  func()
+	FilterHook func()
+)
+
 func (p *Pt) Point() orb.Point {
-	if p.OnPoint != nil {
-		p.OnPoint()
+	if h := PointHook; h != nil {
+		h()
 	}
 	return p.P
 }
@@ -150,8 +154,6 @@ func (w *World) QueryBox(s *core.Source) orb.Bound {
 // Filter is a drawn, pure predicate on pointer ids.
 type Filter struct {
 	Mod, Rem int // accept when id%Mod != Rem (Mod 0: accept all)
-	// OnCall is a scheduling seam (user callback).
-	OnCall func()
 }
 
 func DrawFilter(s *core.Source) *Filter {
@@ -181,8 +183,8 @@ func (f *Filter) Func() quadtree.FilterFunc {
 		return nil
 	}
 	return func(p orb.Pointer) bool {
-		if f.OnCall != nil {
-			f.OnCall()
+		if h := FilterHook; h != nil {
+			h()
 		}
 		return f.Accept(p.(*Pt).ID)
 	}
